@@ -15,7 +15,7 @@ import (
 
 var epoch = time.Unix(0, 0)
 
-var procsList = []int{1, 2, 16}
+var procsList = []int{1, 2, 4, 16}
 
 // runRec is one execution of one generator binary.
 type runRec struct {
@@ -332,6 +332,9 @@ func (k *worker) runGroup(g Group) {
 			switch {
 			case i == 0:
 				kind = "fixpoint+orphans"
+				if g.OrderSensitive() {
+					w.Add("order_sensitive.repository_directories", 1)
+				}
 				k.p0 = nil
 				k.needP0(ds)
 				cur = k.p0
@@ -353,6 +356,9 @@ func (k *worker) runGroup(g Group) {
 				k.judgeRepeat(i, g.Dir, ds, cur, k.fixHeld, witness)
 				w.Add("idempotence_passes", 1)
 				w.Add("repeated_runs", int64(len(ds)))
+				if g.OrderSensitive() {
+					w.Add("order_sensitive.repeated_runs", 1)
+				}
 			default:
 				k.needP0(ds)
 				if err := restore(k.tree, k.base, k.sh.Base); err != nil {
@@ -363,6 +369,9 @@ func (k *worker) runGroup(g Group) {
 				k.judgeRepeat(i, g.Dir, ds, cur, true, witness)
 				w.Add("determinism_passes", 1)
 				w.Add("repeated_runs", int64(len(ds)))
+				if g.OrderSensitive() {
+					w.Add("order_sensitive.repeated_runs", 1)
+				}
 			}
 		})
 		w.Done(i)
